@@ -2,6 +2,7 @@ package interpreter
 
 import (
 	"fmt"
+	"sync"
 )
 
 // BindingSource identifies the origin of a variable binding in an Environment.
@@ -28,9 +29,11 @@ type binding struct {
 }
 
 // Environment manages variable scopes and bindings.
-// Environment is not safe for concurrent use; callers must synchronize access
-// if an environment is shared across goroutines.
+// An async block runs in a child of its parent's Environment on another
+// goroutine, so every scope guards its own map; a lookup that walks up the
+// scope chain locks one scope at a time.
 type Environment struct {
+	mu     sync.RWMutex
 	vars   map[string]binding
 	parent *Environment
 }
@@ -64,14 +67,19 @@ func (e *Environment) Define(name string, value interface{}) {
 // implicitly bound (for example a path or query parameter extracted from a
 // route pattern).
 func (e *Environment) DefineWithSource(name string, value interface{}, source BindingSource) {
+	e.mu.Lock()
 	e.vars[name] = binding{value: value, source: source}
+	e.mu.Unlock()
 }
 
 // LocalSource returns the BindingSource for a variable defined in the current
 // scope. If the variable is not defined locally, it returns BindingUser and
 // false.
 func (e *Environment) LocalSource(name string) (BindingSource, bool) {
-	if b, ok := e.vars[name]; ok {
+	e.mu.RLock()
+	b, ok := e.vars[name]
+	e.mu.RUnlock()
+	if ok {
 		return b.source, true
 	}
 	return BindingUser, false
@@ -79,7 +87,10 @@ func (e *Environment) LocalSource(name string) (BindingSource, bool) {
 
 // Get retrieves a variable value from the environment or parent scopes
 func (e *Environment) Get(name string) (interface{}, error) {
-	if b, ok := e.vars[name]; ok {
+	e.mu.RLock()
+	b, ok := e.vars[name]
+	e.mu.RUnlock()
+	if ok {
 		return b.value, nil
 	}
 
@@ -93,11 +104,14 @@ func (e *Environment) Get(name string) (interface{}, error) {
 // Set updates a variable value in the environment or parent scopes.
 // The binding source is preserved.
 func (e *Environment) Set(name string, value interface{}) error {
+	e.mu.Lock()
 	if b, ok := e.vars[name]; ok {
 		b.value = value
 		e.vars[name] = b
+		e.mu.Unlock()
 		return nil
 	}
+	e.mu.Unlock()
 
 	if e.parent != nil {
 		return e.parent.Set(name, value)
@@ -108,7 +122,10 @@ func (e *Environment) Set(name string, value interface{}) error {
 
 // Has checks if a variable exists in the environment or parent scopes
 func (e *Environment) Has(name string) bool {
-	if _, ok := e.vars[name]; ok {
+	e.mu.RLock()
+	_, ok := e.vars[name]
+	e.mu.RUnlock()
+	if ok {
 		return true
 	}
 
@@ -121,7 +138,9 @@ func (e *Environment) Has(name string) bool {
 
 // HasLocal checks if a variable exists in the current scope only (no parent lookup)
 func (e *Environment) HasLocal(name string) bool {
+	e.mu.RLock()
 	_, ok := e.vars[name]
+	e.mu.RUnlock()
 	return ok
 }
 
@@ -138,9 +157,11 @@ func (e *Environment) GetAll() map[string]interface{} {
 	}
 
 	// Override with current scope variables
+	e.mu.RLock()
 	for name, b := range e.vars {
 		result[name] = b.value
 	}
+	e.mu.RUnlock()
 
 	return result
 }
@@ -148,8 +169,10 @@ func (e *Environment) GetAll() map[string]interface{} {
 // GetLocal returns all variables in the current scope only (no parent lookup).
 func (e *Environment) GetLocal() map[string]interface{} {
 	result := make(map[string]interface{})
+	e.mu.RLock()
 	for name, b := range e.vars {
 		result[name] = b.value
 	}
+	e.mu.RUnlock()
 	return result
 }
